@@ -238,7 +238,7 @@ func unpublishedAt(r *Run, f *ssa.Function, v ssa.Value, at ssa.Instruction, dep
 		case *ssa.Extract:
 			// one result of a helper that returns several: '(newTable, copyOver) := m.nextTable(table, hint)'
 			if call, isCall := x.Tuple.(*ssa.Call); isCall {
-				if cal := core.Callee(call); cal != nil && cal.Blocks != nil && depth < 3 && freshReturningAt(r, cal, x.Index, depth) {
+				if cal := core.Callee(call); cal != nil && cal.Blocks != nil && depth < 6 && freshReturningAt(r, cal, x.Index, depth) {
 					return publishedBefore(r, f, v, call, at)
 				}
 			}
@@ -250,7 +250,7 @@ func unpublishedAt(r *Run, f *ssa.Function, v ssa.Value, at ssa.Instruction, dep
 					return publishedBefore(r, f, v, x, at)
 				}
 			}
-			if cal != nil && cal.Blocks != nil && depth < 3 {
+			if cal != nil && cal.Blocks != nil && depth < 6 {
 				// a helper whose every return is an allocation of its own that it has not published
 				if freshReturning(r, cal, depth) {
 					return publishedBefore(r, f, v, x, at)
@@ -552,7 +552,8 @@ func nonEscapingParam(r *Run, cal *ssa.Function, i int, depth int) bool {
 		}
 		switch x := in.(type) {
 		case *ssa.Store:
-			if alias[x.Val] {
+			// (a pointer into the object stored into a field of the same object - g.cond.L = &g.mu - goes nowhere else)
+			if alias[x.Val] && !alias[x.Addr] {
 				ok = false
 			}
 		case *ssa.Return:
